@@ -11,7 +11,7 @@ use std::{
 };
 
 use rand::Rng;
-use rand_chacha::ChaCha8Rng;
+use crate::kit::SimRng as ChaCha8Rng;
 use tokio::io::{AsyncRead, AsyncWrite, ReadBuf};
 
 #[derive(Debug, Clone)]
